@@ -104,6 +104,9 @@ func c03Enrich(r *rand.Rand, s *gen.Schema) {
 					fl.Default = "1.5"
 				case fl.Kind == "scalar":
 					fl.Default = "42"
+					if big := c03BigDefaults(fl.Type); len(big) > 0 && r.IntN(2) == 0 {
+						fl.Default = big[r.IntN(len(big))][0]
+					}
 				}
 			}
 			if fl.Kind == "scalar" && (fl.Type == "string" || fl.Type == "bytes") && singular && r.IntN(4) == 0 {
